@@ -237,6 +237,12 @@ def gen_params(seed, shard, i):
          "xdim": int(rng.choice([1, 1, 3])), "edim": int(rng.choice([1, 1, 4])),
          "xoff": float(rng.choice([1.0, 1e-6, 0.0])),
          "s": int(rng.integers(0, 2 ** 31))}
+    if rng.random() < 0.2:
+        # very small / very large overall units (radiances in W, volume mixing ratios squared ...):
+        # determinants of such matrices under- or overflow, the problem itself is as well conditioned
+        g["ua"] = float(10 ** rng.uniform(-12, 12))
+        g["uy"] = float(10 ** rng.uniform(-12, 12))
+        g["wide_units"] = True
     return g
 
 
@@ -607,8 +613,32 @@ FIXED = [
 ]
 
 
+def float32_first(rec):
+    """Process history: the very first retrieval of the process works on float32 arrays (nothing is judged
+    here; the float64 cases that follow are)."""
+    from typhon.retrieval.oem import common, error
+    rng = np.random.default_rng(1)
+    K = rng.normal(size=(4, 3)).astype(np.float32)
+    S_a = np.eye(3, dtype=np.float32) * np.float32(2.0)
+    S_y = np.eye(4, dtype=np.float32) * np.float32(0.5)
+    _installed["off"] = True
+    try:
+        for fn, extra in ((common.error_covariance_matrix, ()), (common.retrieval_gain_matrix, ()),
+                          (common.averaging_kernel_matrix, ()),
+                          (error.retrieval_noise, (np.ones(4, dtype=np.float32),))):
+            try:
+                fn(K, S_a, S_y, *extra)
+            except Exception:
+                pass
+    finally:
+        _installed["off"] = False
+    rec.count("history.float32_first_call")
+
+
 def run_shard(spec, rec):
     install_contracts(rec)
+    if spec["shard"] % 2 == 1:
+        float32_first(rec)
     if spec["shard"] == 0:
         for g in FIXED:
             check_triple(rec, g)
